@@ -43,13 +43,15 @@ Example twin_crosstalk :
   /\ no_collision twin_codes twin_ops = false.
 Proof. vm_compute. repeat split. intros [H|[]]; discriminate. Qed.
 
-(* ---- registering a function again after it ran: the earlier data disappears from the report --- *)
+(* ---- registering a function again after it ran: the data stays (labels are merged) -------------- *)
 Definition rereg_codes : list code := [mkcode 0 0 0 1000 [2; 3]; mkcode 0 3 0 2000 [2; 3; -1]].
 Definition rereg_ops : list op :=
-  [G 0 0; E 0; L 0 0 1 0 2; L 0 0 1 0 3; R 0 0 1 0 3; D 0; S; G 0 1; S].
+  [G 0 0; E 0; L 0 0 1 0 2; L 0 0 1 0 3; R 0 0 1 0 3; D 0; S; G 0 1; S;
+   E 0; L 0 1 2 0 2; L 0 1 2 0 3; R 0 1 2 0 3; D 0; S].
 
-Example rereg_loses_data :
-  rev (snaps (run rereg_codes 0 0 rereg_ops)) = [[(0, [(2, 1, 0); (3, 1, 0)])]; [(0, [])]]
+Example rereg_keeps_data :
+  rev (snaps (run rereg_codes 0 0 rereg_ops))
+  = [[(0, [(2, 1, 0); (3, 1, 0)])]; [(0, [(2, 1, 0); (3, 1, 0)])]; [(0, [(2, 2, 0); (3, 2, 0)])]]
   /\ pad_ok (run rereg_codes 0 0 rereg_ops) = true.
 Proof. vm_compute. split; reflexivity. Qed.
 
